@@ -11,6 +11,18 @@ TRUST = ('TLC/SANY (and Apalache where named), the JSON bridge between TLC and t
          'guards the bridge. ')
 
 CHECKS = {
+    'C06': dict(
+        technique='TLA+ model of the pipe (spec/InspectWrapper.tla: StartRead / Feed(i) in any order / EndRead / Exhaust / Close, per-inspector fault scripts) model-checked with TLC; every script replayed on the real InspectWrapper with stub inspectors against the set of outcomes the model admits; real-inspector runs with injected faults recorded at the same grain and validated by Trace_InspectWrapper',
+        category='model_checking',
+        text='Transparent, Isolation, NeverFedAgain, ErroredExactly, AbortPoint, NoReadAfterAbort, FinishAll and FedAll are checked by '
+             'TLC for 3 inspectors, every fault placement / completion index / match flag, both source flavours, with and without an '
+             'expected format, under every inspector order (the code iterates a set). Each script is then executed on the real '
+             'wrapper (stubs subclass the real FileInspector and are installed through ALL_FORMATS) and the observed (bytes returned, '
+             'exception, reads consumed, reads reaching each inspector, errored set, finish calls) must be one of the outcomes the '
+             'model admits. Real inspectors on real and hostile content, with a fault injected at every (inspector, read) position, '
+             'are traced at the grain start/feed/end and validated as behaviours of the same actions.',
+        design_ref='6/C06',
+        note=TRUST + 'BaseException subclasses that are not Exception are out of scope; log output is not compared.'),
     'C02': dict(
         technique='TLA+ aggregator transition system (spec/SafetyCheck.tla: Construct/Begin/Gate/RunCheck/Conclude) model-checked with TLC and every terminal state replayed on a real FileInspector with scripted checks; trait tables as TLA+ reference functions (spec/ImageRef.tla) with the declarative Unsafe list checked against the operational Ref (FailClosed, CleanAccepted) by TLC, every layout built and streamed; CLI exit status on a stratified sample; exception injection into every shipped check',
         category='model_checking',
